@@ -118,6 +118,9 @@ def f_strings(c):
     return ss
 
 
+PREP_VIOLATIONS = []
+
+
 def f_prepare(cases, run):
     sc.prepare([c for c in cases if f_in_model(c)], run)
     ss = sorted({s for c in cases if f_in_model(c) for s in f_strings(c)} - set(PARSE))
@@ -130,7 +133,12 @@ def f_prepare(cases, run):
     if ds:
         rr = run([{"id": i, "kind": "dateparse", "text": t} for i, t in enumerate(ds)])
         for i, t in enumerate(ds):
-            DATES[t] = rr[i]["dt"]
+            r = rr.get(i) if isinstance(rr, dict) else rr[i]
+            if r is None or "dt" not in r:
+                PREP_VIOLATIONS.append({"what": "reading a text as a date-time (what the date filter does to a string input) panicked or did not return", "input": {"text": t, "template": "{{ s | date: '%Y' }}"}, "observed": r})
+                DATES[t] = None
+            else:
+                DATES[t] = r["dt"]
     # graphemes of every string a truncate may see
     gs = sorted({sc.show_value(c["x"]) for c in cases if f_in_model(c) and c["f"] == "truncate"} - set(sc.ORACLE["graphemes"]))
     if gs:
@@ -316,6 +324,11 @@ def main(tier, seed):
     lv.standard_proof_phase(run, PROP, TARGETS, thorough=(tier == "thorough"))
     a = lvcheck.generic_suite(run, FILTERS, tier, seed)
     b = lvcheck.generic_suite(run, TAGS, tier, seed)
+    seen_pv = set()
+    for v in PREP_VIOLATIONS:
+        if v["input"]["text"] not in seen_pv:
+            seen_pv.add(v["input"]["text"])
+            run.violations.append(v)
     # every argument position of every tag filled with every kind of expression (C01's grid): whatever parses is rendered, on both builds; never a panic, always valid UTF-8
     from props import c01
     texts = []
